@@ -119,6 +119,7 @@ func init() {
 	"slices.DeleteFunc":       extSlicesDeleteFunc,
 	"slices.SortFunc":         extSlicesSortFunc,
 	"slices.Sort":             extSlicesSortFunc,
+	"cmp.Compare":             extCmpCompare,
 	"math/rand.NewSource":     extNonNil,
 	"math/rand.New":           extNonNilPtr,
 	"(*math/rand.Rand).Int":   extNonNegInt,
@@ -273,6 +274,16 @@ func extSlicesClone(e *Env, fr *Frame, fn *ssa.Function, args []Value, rt types.
 	return &Slice{Arr: mkIte(isNil, "0", r), Off: "0", Len: s.Len, Cap: mkIte(isNil, "0", cp), Typ: rt}
 }
 
+// cmp.Compare on integers: -1, 0, +1.
+func extCmpCompare(e *Env, fr *Frame, fn *ssa.Function, args []Value, rt types.Type, st *State) Value {
+	x, ok1 := args[0].(*Sc)
+	y, ok2 := args[1].(*Sc)
+	if !ok1 || !ok2 || x.Sort != sInt || y.Sort != sInt {
+		unsupp("cmp.Compare on non-integer operands")
+	}
+	return &Sc{T: mkIte(sx("<", x.T, y.T), "(- 1)", mkIte(sx(">", x.T, y.T), "1", "0")), Sort: sInt, Typ: rt}
+}
+
 func extMathCeil(e *Env, fr *Frame, fn *ssa.Function, args []Value, rt types.Type, st *State) Value {
 	a := args[0].(*Sc)
 	if e.bvfp {
@@ -360,6 +371,7 @@ func extSlicesDeleteFunc(e *Env, fr *Frame, fn *ssa.Function, args []Value, rt t
 func extSlicesSortFunc(e *Env, fr *Frame, fn *ssa.Function, args []Value, rt types.Type, st *State) Value {
 	s := args[0].(*Slice)
 	et := s.Typ.Underlying().(*types.Slice).Elem()
+	pre := st.clone()
 	e.counter++
 	pi := q(fmt.Sprintf("sortpi!%d", e.counter))
 	inv := q(fmt.Sprintf("sortinv!%d", e.counter))
@@ -372,15 +384,50 @@ func extSlicesSortFunc(e *Env, fr *Frame, fn *ssa.Function, args []Value, rt typ
 	e.assume(fmt.Sprintf("(forall ((%s Int)) (! (=> (and (<= 0 %s) (< %s %s)) (= (%s (%s %s)) %s)) :pattern ((%s (%s %s)))))", k, k, k, s.Len, inv, pi, k, k, inv, pi, k))
 	e.assume(fmt.Sprintf("(forall ((%s Int)) (! (=> (and (<= 0 %s) (< %s %s)) (and (<= 0 (%s %s)) (< (%s %s) %s) (= (%s (%s %s)) %s))) :pattern ((%s %s))))", j, j, j, s.Len, inv, j, inv, j, s.Len, pi, inv, j, j, inv, j))
 	names, sorts, leaves := e.elemArrays(et)
+	var firstNew, firstOld string
 	for i, name := range names {
 		arr := e.heapGet(st, name, sorts[i])
 		inner := "(Array Int " + leaves[i].Sort + ")"
 		old := e.maybeNameForce(mkSelect(arr, s.Arr), inner, "sortold")
 		ni := e.fresh("sorted", inner)
+		if i == 0 {
+			firstNew, firstOld = ni, old
+		}
+		// every input element is found again at position inv(j) of the result
+		e.assume(fmt.Sprintf("(forall ((%s Int)) (! (=> (and (<= 0 %s) (< %s %s)) (= (select %s %s) (select %s %s))) :pattern ((select %s %s))))", j, j, j, s.Len, old, ixTerm(s.Off, j), ni, ixTerm(s.Off, sx(inv, j)), old, ixTerm(s.Off, j)))
 		e.assume(fmt.Sprintf("(forall ((%s Int)) (! (=> (and (<= 0 %s) (< %s %s)) (= (select %s %s) (select %s %s))) :pattern ((select %s %s))))", k, k, k, s.Len, ni, ixTerm(s.Off, k), old, ixTerm(s.Off, sx(pi, k)), ni, ixTerm(s.Off, k)))
 		e.assume(fmt.Sprintf("(forall ((%s Int)) (! (=> (or (< %s %s) (>= %s (+ %s %s))) (= (select %s %s) (select %s %s))) :pattern ((select %s %s))))", j, j, s.Off, j, s.Off, s.Len, ni, j, old, j, ni, j))
 		e.heapSet(st, name, sorts[i], e.maybeName(mkStore(arr, s.Arr, ni), sorts[i]))
 		e.noteWrite(name, s.Arr)
+	}
+	// slices.SortFunc with a statically known comparator closure: IF the comparator is a total
+	// preorder on the elements (cmp(a,b) < 0 iff cmp(b,a) > 0, and <= is transitive) THEN the
+	// result is ordered by it. The premise is not assumed: whoever needs the order has to
+	// prove it from the comparator's body (for `int(b)-int(a)` on 64-bit views it is false).
+	if len(args) == 2 {
+		if fv, ok := args[1].(*FuncV); ok && fv.Fn != nil && len(fv.Fn.Blocks) > 0 {
+			post := &Slice{Arr: s.Arr, Off: s.Off, Len: s.Len, Cap: s.Cap, Typ: s.Typ}
+			cmpAt := func(sl *Slice, state *State, a, b string) string {
+				e.quantDepth++
+				defer func() { e.quantDepth-- }()
+				ea := e.load(state, &Ptr{Kind: "elem", Ref: sl.Arr, Idx: ixTerm(sl.Off, a), Root: et})
+				eb := e.load(state, &Ptr{Kind: "elem", Ref: sl.Arr, Idx: ixTerm(sl.Off, b), Root: et})
+				res := e.pureCall(fv.Fn, fv.Bind, []Value{ea, eb}, state)
+				return res[0].(*Sc).T
+			}
+			a, b, c := "|$a|", "|$b|", "|$c|"
+			in := func(x string) string { return mkAnd(sx("<=", "0", x), sx("<", x, s.Len)) }
+			cab, cba, cbc, cac := cmpAt(s, pre, a, b), cmpAt(s, pre, b, a), cmpAt(s, pre, b, c), cmpAt(s, pre, a, c)
+			consistent := fmt.Sprintf("(forall ((%s Int) (%s Int) (%s Int)) (=> %s (and (= (< %s 0) (> %s 0)) (=> (and (<= %s 0) (<= %s 0)) (<= %s 0)))))",
+				a, b, c, mkAnd(in(a), in(b), in(c)), cab, cba, cab, cbc, cac)
+			sab := cmpAt(post, st, a, b)
+			// (triggered by pairs of reads of result elements)
+			sorted := fmt.Sprintf("(forall ((%s Int) (%s Int)) (! (=> (and (<= 0 %s) (< %s %s) (< %s %s)) (<= %s 0)) :pattern ((select %s %s) (select %s %s))))",
+				a, b, a, a, b, b, s.Len, sab, firstNew, ixTerm(s.Off, a), firstNew, ixTerm(s.Off, b))
+			_ = firstOld
+			e.assume(mkImp(st.pc, mkImp(consistent, sorted)))
+			e.trust("slices.SortFunc orders its argument when the comparator is a total preorder on the elements (premise proved where used)")
+		}
 	}
 	return nil
 }
